@@ -133,6 +133,29 @@ theorem agg_face_eq_any_argsort (red : List α → β) (data : Int → α) (t : 
     aggFace red data t (partsOf N perm) = faceRef red data t N :=
   agg_face_eq red data t N (partsOf N perm) (hN ▸ partsOf_ok N perm h)
 
+/-- **C02 ∘ C17 end to end**: on EVERY standard-form face table, with the corner counts the C02
+    model derives and the partitions computed from ANY sorting permutation of them, the
+    aggregation of face `f` is the reduction over exactly the real corners of row `f` — the
+    statement of the property with no intermediate table left as a hypothesis. -/
+theorem agg_face_real_corners {n w : Nat} {t : Table} (h : Edges.StdForm n w t)
+    (red : List α → β) (data : Int → α) (perm : List Nat)
+    (hp : SortsBy (Edges.nNodesPerFace t) perm) :
+    aggFace red data t (partsOf (Edges.nNodesPerFace t) perm)
+      = t.map (fun r => some (red ((faceOf r).map data))) := by
+  have hN : (Edges.nNodesPerFace t).length = t.length := by simp [Edges.nNodesPerFace]
+  rw [agg_face_eq_any_argsort red data t _ perm hN hp]
+  unfold faceRef
+  apply List.ext_getElem
+  · simp
+  · intro f h1 h2
+    have hf : f < t.length := by simpa using h1
+    have hrow : rowAt t f = t[f] := by simp [rowAt, List.getD, List.getElem?_eq_getElem hf]
+    have hNf : (Edges.nNodesPerFace t).getD f 0 = Edges.nNodesRow (rowAt t f) := by
+      simp [Edges.nNodesPerFace, List.getD, List.getElem?_eq_getElem hf, hrow]
+    have := (agg_no_padding h f hf).1
+    rw [hrow] at this
+    simp only [List.getElem_map, List.getElem_range, hNf, hrow, this]
+
 /-! ### non-vacuity -/
 example : SortsBy [4, 3, 4, 3, 5] [3, 1, 0, 2, 4] := by decide
 /-- a triangle and a quad in "wrong" order, partitions as numpy returns them -/
